@@ -169,8 +169,9 @@ def run(ctx, col: Collector):
                     return True
                 from .common import enclosing_loops
                 from ..cond import copy_subst
-                sub = copy_subst([s for s in ast.walk(v.node) if isinstance(s, ast.Assign)])
-                for l in enclosing_loops(v.node, n):
+                fnode = getattr(ctx, 'current_fn', None) or v.node
+                sub = copy_subst([s for s in ast.walk(fnode) if isinstance(s, ast.Assign)])
+                for l in enclosing_loops(fnode, n):
                     if isinstance(l, ast.For):
                         it = norm(l.iter)
                         it = sub.get(it, it)
